@@ -4,7 +4,18 @@ Obs == ndJsonDeserialize(IOEnv.OBS)
 VARIABLE x
 Init == x = 0
 Next == UNCHANGED x
+\* merge tool: per chromosome, the tool's output over the inputs that have the chromosome
+StreamsOf(o, c) == Map(LAMBDA inp : Map(LAMBDA it : <<it[2], it[3], it[4]>>, SelectSeq(inp, LAMBDA it : it[1] = c)), o.inputs)
+OutOf(o, c) == Map(LAMBDA it : <<it[2], it[3], it[4]>>, SelectSeq(o.obs.out, LAMBDA it : it[1] = c))
+ToolVerdict(o) ==
+  IF o.obs.rc # 0 THEN "tool-failed"
+  ELSE IF o.obs.produced # 1 THEN "documented-output-name-not-accepted"
+  ELSE IF o.obs.parsed # 1 THEN "unparsable-output"
+  ELSE IF \E c \in 1..2 : ~ToolOK(StreamsOf(o, c), o.clip # 0, o.clip, o.adjust, o.thr, OutOf(o, c)) THEN "tool-signal"
+  ELSE IF \E i \in 1..Len(o.obs.out) : o.obs.out[i][1] \notin {1, 2} THEN "unknown-chromosome"
+  ELSE "ok"
 Verdict(o) ==
+  IF o.mode = "tool" THEN ToolVerdict(o) ELSE
   IF o.obs.result # "ok" THEN "not-ok"
   ELSE IF o.obs.unmapped = 1 THEN "coordinate-not-from-input-or-window-edge"
   ELSE IF o.obs.nonint = 1 THEN "non-integral-sum"
